@@ -266,7 +266,11 @@ def run(a):
     cfg = PROPS[pid]
     expected_path = os.path.join(ROOT, "contracts", "expected.json")
     expected_all = json.load(open(expected_path)) if os.path.exists(expected_path) else {}
-    expected = set(expected_all.get(pid, []))
+    exp_entry = expected_all.get(pid, {})
+    if isinstance(exp_entry, list):
+        exp_entry = {"obligations": exp_entry, "functions": {}}
+    expected = set(exp_entry.get("obligations", []))
+    expected_sha = exp_entry.get("functions", {})
     known = json.load(open(os.path.join(ROOT, "known_findings.json"))) if os.path.exists(os.path.join(ROOT, "known_findings.json")) else {"findings": [], "fixed": []}
 
     obligations, functions, unsupported, assumptions, trusted, bounded_notes = [], [], [], set(), set(), set()
@@ -350,6 +354,20 @@ def run(a):
                       open(path, "w"), indent=1, default=str)
             violations.append({"property": pid, "obligation": ob.name, "replay": path, "no_input": True,
                                "witness": ob.result.get("model"), "clause": ob.name, "why": "refuted"})
+        elif (st == "unknown" and ob.result.get("model") is not None and ob.name in expected and ob.ex is not None
+              and _source_changed(ob, expected_sha)):
+            # The obligation was discharged on the unchanged tree, the text of the function it belongs to (or of a callee inlined into it) is different now,
+            # no back end proves it any more, and the solver has a counter-model of the VC with every quantified hypothesis instantiated at the VC's ground
+            # terms (candidate: the quantified originals were not all checked).  Reported as the failed obligation, without a concrete input.
+            os.makedirs(replay_dir, exist_ok=True)
+            path = os.path.join(replay_dir, _safe(ob.name) + ".json")
+            json.dump({"property": pid, "obligation": ob.name, "function": getattr(ob.contract, "source", None), "inputs": None,
+                       "solver": {"log": ob.result["log"], "candidate_counter_model": ob.result.get("model")}, "trace": ob.trace,
+                       "note": "discharged on the unchanged tree; the function's source changed and the obligation is no longer provable; "
+                               "counter-model of the ground-instantiated VC attached; no concrete failing input could be built"},
+                      open(path, "w"), indent=1, default=str)
+            violations.append({"property": pid, "obligation": ob.name, "replay": path, "no_input": True, "witness": ob.result.get("model"),
+                               "clause": ob.name, "why": "no longer provable after a change of the function (candidate counter-model)"})
         else:
             undecided.append({"obligation": ob.name, "why": "solver verdict %s (%s)" % (st, ob.result["log"])})
     for u in unsupported:
@@ -387,7 +405,13 @@ def run(a):
                            "known_finding": f.get("what") if f is not None else None}, open(path, "w"), indent=1, default=str)
 
     if a.update_expected:
-        expected_all[pid] = sorted(ob.name for ob in ded if ob.result["status"] == "discharged")
+        shas = {}
+        for fn_ in functions:
+            shas[fn_["function"]] = fn_["sha256"]
+            for inl in fn_["inlined"]:
+                src_, h_ = inl.rsplit("#", 1)
+                shas["inlined:" + src_] = h_
+        expected_all[pid] = {"obligations": sorted(ob.name for ob in ded if ob.result["status"] == "discharged"), "functions": shas}
         json.dump(expected_all, open(expected_path, "w"), indent=0, sort_keys=True)
 
     # ---- evidence -----------------------------------------------------------------------------------
@@ -461,6 +485,19 @@ GLOBAL_TRUSTED = [
     "pyvc extractor and translator (cross-checked natively by the bounded stand-ins on the same contracts)",
     "closed world over the declared record classes for isinstance/dynamic dispatch",
 ]
+
+
+def _source_changed(ob, expected_sha):
+    """has the text of the function under contract, or of a callee whose body was inlined into it, changed since expected.json was recorded?"""
+    src = getattr(ob.contract, "source", None)
+    if src is None or src not in expected_sha:
+        return False
+    if expected_sha[src] != ob.ex.ext.sha:
+        return True
+    for isrc, ih in ob.ex.inlined:
+        if expected_sha.get("inlined:" + isrc, ih[:12]) != ih[:12]:
+            return True
+    return False
 
 
 def _safe(s):
